@@ -55,6 +55,8 @@ func checkC15(c *Ctx) {
 	c.ruleOrder()
 	c.ruleShortWrite("C4.shortwrite")
 	c.ruleShortRead("C6.shortread", inScope)
+	// a failure is not reported with an error variable that is nil at that point
+	c.ruleStaleNil("N3.stalenil", inScope)
 	// a variable file that ends early is an error, not an empty or zero-filled value (F7, shared with C11)
 	for _, s := range []string{"efivarfs/fswrapper.(*FSWrapper).ParseEfivars", "efi/attributes.ParseEfivars"} {
 		if fn := c.FnOpt(s); fn != nil {
@@ -174,7 +176,19 @@ func (c *Ctx) ruleOrder() {
 			}
 			cc := call.Common()
 			if cc.IsInvoke() {
-				return cc.Method.Name() == "WriteVar" || dependencyKind(cc.Value.Type()) == "filesystem"
+				if cc.Method.Name() == "WriteVar" || dependencyKind(cc.Value.Type()) == "filesystem" {
+					return true
+				}
+				// a method of the backend reached through another interface (a type
+				// assertion on e.EFIVars): what the call graph resolves it to
+				if node := c.P.CallGraph().Nodes[fn]; node != nil {
+					for _, out := range node.Out {
+						if out.Site == call && c.P.InLib(out.Callee.Func) && c.reachesFsMutation(out.Callee.Func) {
+							return true
+						}
+					}
+				}
+				return false
 			}
 			callee := ir.Callee(call)
 			return callee != nil && c.P.InLib(callee) && c.reachesFsWrite(callee)
@@ -308,6 +322,38 @@ func (c *Ctx) reachesFsWrite(fn *ssa.Function) bool {
 		instrsOf(f, func(i ssa.Instruction) {
 			if call, ok := i.(ssa.CallInstruction); ok && call.Common().IsInvoke() && dependencyKind(call.Common().Value.Type()) == "filesystem" {
 				hit = true
+			}
+		})
+		if hit {
+			return true
+		}
+	}
+	return false
+}
+
+// reachesFsMutation: the function (transitively, in the library) changes the
+// caller's filesystem: a mutating method, or an OpenFile that can create,
+// truncate or write.
+func (c *Ctx) reachesFsMutation(fn *ssa.Function) bool {
+	oR, _ := c.constInt("os", "O_RDONLY")
+	reach, _ := c.Reachable([]*ssa.Function{fn})
+	for f := range reach {
+		if !c.P.InLib(f) {
+			continue
+		}
+		hit := false
+		instrsOf(f, func(i ssa.Instruction) {
+			call, ok := i.(ssa.CallInstruction)
+			if !ok || !call.Common().IsInvoke() || dependencyKind(call.Common().Value.Type()) != "filesystem" {
+				return
+			}
+			switch m := call.Common().Method.Name(); {
+			case fsMutators[m], m == "Write":
+				hit = true
+			case m == "OpenFile" && len(call.Common().Args) >= 2:
+				if k, isK := evalConst(call.Common().Args[1]); !isK || k != oR {
+					hit = true
+				}
 			}
 		})
 		if hit {
